@@ -61,6 +61,17 @@ func coResume(L *LState) int {
 		L.Push(LString(msg))
 		return 2
 	}
+	if th.Parent != nil {
+		// "normal": it is waiting for a coroutine it resumed; resuming it would re-enter it
+		msg := "can not resume a non-suspended thread"
+		if th.wrapped {
+			L.RaiseError(msg)
+			return 0
+		}
+		L.Push(LFalse)
+		L.Push(LString(msg))
+		return 2
+	}
 	th.Parent = L
 	L.G.CurrentThread = th
 	if !th.isStarted() {
